@@ -52,6 +52,11 @@ inductive X where
   | err                            -- `Err(LengthError)`
   | ok (a : X)                     -- `Ok(a)`
   | arrOut                         -- `array_assume_init(array)`: the array the builder filled
+  | layoutSize                     -- `Layout::new::<GenericArray<MaybeUninit<T>, N>>().size()`
+  | dangling (typed : Bool)        -- `NonNull::dangling().as_ptr()`; `typed`: the pointee is the array / element type
+  | isNull (p : X)
+  | guardPtr                       -- `self.ptr` of the `DeallocOnDrop` guard
+  | boxOut (p : X)                 -- `Box::from_raw(p.cast())` over the filled array
 deriving Repr
 
 inductive V where
@@ -62,6 +67,18 @@ inductive V where
   | dbg (l : List Nat)
   | obj
   | err | ok (v : V) | arr (l : List Nat)
+  | null | ptr (blk : Option Nat)      -- raw pointers: null, dangling (`none`), a heap block
+  | wild                               -- a non-null address that is not aligned for the array
+  | boxed (blk : Option Nat) (l : List Nat)   -- `Box::from_raw(ptr)`: the boxed array and the block it lives in
+deriving Repr, DecidableEq
+
+/-- allocator events (`alloc::alloc::{alloc, dealloc, handle_alloc_error}`); block 0 = no block -/
+inductive AEv where
+  | alloc (blk size align : Nat)
+  | allocFail (size align : Nat)
+  | dealloc (blk size align : Nat)
+  | handleAllocError
+  | nullDeref                        -- a reference is formed to the null block
 deriving Repr, DecidableEq
 
 /-- statements, in continuation-passing form (`k` is the rest of the block) -/
@@ -97,6 +114,12 @@ inductive S where
                                               -- the environment of its creation (`env.take l0`) plus the source slot
   | pollMapS (l0 : Nat) (src : Obj) (clo : S) (k : S)
                                               -- `src_iter.map(clo).next().is_some()`
+  | allocS (k : S)                            -- `let p = alloc::alloc::alloc(layout);` (binds the pointer)
+  | abortAlloc                                -- `handle_alloc_error(layout)` (diverges)
+  | guardNew (p : X) (k : S)                  -- `let guard = DeallocOnDrop { ptr: p, layout };`
+  | guardForget (k : S)                       -- `mem::forget(guard)`
+  | builderAt (p : X) (k : S)                 -- `let mut builder = IntrusiveArrayBuilder::new(&mut *p);`
+  | deallocS (p : X) (k : S)                  -- `alloc::alloc::dealloc(p, layout)`
   | endOut (k : S)                            -- an inlined callee returns: its local builder, unless forgotten, is
                                               -- dropped here (`Drop for IntrusiveArrayBuilder`: `array[..position]`)
   | opaque (why : Nat)                        -- a statement the translator could not lower
@@ -110,6 +133,13 @@ structure O where
   uninit : List Nat      -- indices of slots that were never written (`MaybeUninit` storage of a builder)
 deriving Repr, DecidableEq
 
+/-- growable extension of the machine state (every field has a default, so state literals stay valid) -/
+structure StExt where
+  atrace : List AEv := []          -- allocator events so far
+  guard : Option V := none         -- a live `DeallocOnDrop { ptr, layout }` (its `ptr`)
+  aborted : Bool := false          -- `handle_alloc_error` was reached
+deriving Repr, DecidableEq
+
 structure St where
   self : O
   out : O
@@ -118,12 +148,22 @@ structure St where
   forgot : Bool      -- `mem::forget(self)` ran / `self` was moved into `out`
   polls : Nat        -- number of `next()` calls made on the caller's iterator
   outForgot : Bool   -- `mem::forget(out)` ran (`builder.finish()`)
+  ext : StExt := {}
 deriving Repr, DecidableEq
 
 /-- one `next()` call on the caller's iterator -/
 inductive Poll where
   | yield (x : Nat) | done | panic
 deriving Repr, DecidableEq
+
+/-- growable extension of the context -/
+structure CtxExt where
+  esz : Nat := 1              -- `size_of::<T>()`
+  ealign : Nat := 1           -- `align_of::<T>()`
+  allocOk : Bool := true      -- does the allocator succeed
+  ndSelf : Bool := true       -- `mem::needs_drop::<T>()`
+  ndOther : Bool := true      -- `mem::needs_drop::<B>()`
+deriving Repr
 
 structure Ctx where
   n : Nat                     -- `N::USIZE`
@@ -132,6 +172,7 @@ structure Ctx where
   cl : Nat → Option Nat       -- k-th `Clone::clone` result (`none`: panics)
   src : Nat → Poll := fun _ => .done      -- k-th `next()` of the caller's iterator
   hint : Nat × Option Nat := (0, none)    -- its `size_hint()`
+  ext : CtxExt := {}
 
 inductive R where
   | ret (v : V) | panicked | ub
@@ -263,6 +304,19 @@ def eval (c : Ctx) (env : List V) (st : St) : X → Option V
   | .err => some .err
   | .ok a => (eval c env st a).map .ok
   | .arrOut => if st.hasOut && st.out.uninit.isEmpty then some (.arr st.out.slots) else none
+  | .layoutSize => some (.nat (c.n * c.ext.esz))
+  | .dangling typed => if typed || decide (c.ext.ealign ≤ 1) then some (.ptr none) else some .wild
+  | .isNull p =>
+    match eval c env st p with
+    | some .null => some (.bool true)
+    | some (.ptr _) => some (.bool false)
+    | some .wild => some (.bool false)
+    | _ => none
+  | .guardPtr => st.ext.guard
+  | .boxOut p =>
+    match eval c env st p with
+    | some (.ptr b) => if st.hasOut && st.out.uninit.isEmpty then some (.boxed b st.out.slots) else none
+    | _ => none
 
 def idsOf (o : O) (lo hi : Nat) : List Nat := (o.slots.drop lo).take (hi - lo)
 
@@ -419,8 +473,12 @@ def exec (c : Ctx) : S → List V → St → List Ev × R × St
   | .pollS k, env, st =>
     match c.src st.polls with
     | .yield x =>
-      let r := exec c k (env ++ [.bool true]) { st with polls := st.polls + 1 }
-      (.poll st.polls :: .take st.polls x :: .drop x :: r.1, r.2)
+      -- the temporary `Option<T>` is dropped at the end of the statement; its destructor may panic
+      if panics [x] c.bad then
+        ([.poll st.polls, .take st.polls x, .drop x], .panicked, { st with polls := st.polls + 1 })
+      else
+        let r := exec c k (env ++ [.bool true]) { st with polls := st.polls + 1 }
+        (.poll st.polls :: .take st.polls x :: .drop x :: r.1, r.2)
     | .done =>
       let r := exec c k (env ++ [.bool false]) { st with polls := st.polls + 1 }
       (.poll st.polls :: r.1, r.2)
@@ -473,10 +531,39 @@ def exec (c : Ctx) : S → List V → St → List Ev × R × St
       | (tr, .ret _, st') => (tr, .ub, st')
       | r => r
     else exec c k (env ++ [.bool false]) st
+  | .allocS k, env, st =>
+    if c.ext.allocOk then
+      exec c k (env ++ [.ptr (some 1)])
+        { st with ext := { st.ext with atrace := st.ext.atrace ++ [.alloc 1 (c.n * c.ext.esz) c.ext.ealign] } }
+    else
+      exec c k (env ++ [.null])
+        { st with ext := { st.ext with atrace := st.ext.atrace ++ [.allocFail (c.n * c.ext.esz) c.ext.ealign] } }
+  | .abortAlloc, _, st =>
+    ([], .panicked, { st with ext := { st.ext with atrace := st.ext.atrace ++ [.handleAllocError], aborted := true } })
+  | .guardNew p k, env, st =>
+    match eval c env st p with
+    | some v => exec c k env { st with ext := { st.ext with guard := some v } }
+    | none => ([], .ub, st)
+  | .guardForget k, env, st => exec c k env { st with ext := { st.ext with guard := none } }
+  | .builderAt p k, env, st =>
+    match eval c env st p with
+    | some (.ptr _) =>
+      exec c k env { st with out := ⟨List.replicate c.n 0, 0, 0, 0, List.range c.n⟩, hasOut := true, outForgot := false }
+    | some .null => ([], .ub, { st with ext := { st.ext with atrace := st.ext.atrace ++ [.nullDeref] } })
+    | _ => ([], .ub, st)
+  | .deallocS p k, env, st =>
+    match eval c env st p with
+    | some (.ptr b) =>
+      exec c k env { st with ext := { st.ext with atrace := st.ext.atrace ++ [.dealloc (b.getD 0) (c.n * c.ext.esz) c.ext.ealign] } }
+    | _ => ([], .ub, st)
   | .endOut k, env, st =>
     if st.hasOut && !st.outForgot then
-      let r := exec c k env { st with outForgot := true }
-      (dropEvs st.out 0 st.out.position ++ r.1, r.2)
+      -- slice drop glue: every element's destructor runs even if one of them panics; the panic then propagates
+      if panics (idsOf st.out 0 st.out.position) c.bad then
+        (dropEvs st.out 0 st.out.position, .panicked, { st with outForgot := true })
+      else
+        let r := exec c k env { st with outForgot := true }
+        (dropEvs st.out 0 st.out.position ++ r.1, r.2)
     else exec c k env st
   | .opaque _, _, st => ([], .ub, st)
 
@@ -576,5 +663,26 @@ def runFn2 (c : Ctx) (dropSelf dropOut : S) (f : Fn) (args : List V) (st : St) :
       | _, .panicked => R.panicked
       | _, _ => res
     (r.1 ++ d1.1 ++ d2.1, res', st')
+
+/-- a function with a `DeallocOnDrop` guard and a builder as locals (boxed `generate`): at scope end
+    and while unwinding the builder (declared last) is dropped first, then the guard -/
+def runFnB (c : Ctx) (dropOut dropGuard : S) (f : Fn) (args : List V) (st : St) : List Ev × R × St :=
+  let r := exec c f.body args st
+  let st' := r.2.2
+  match r.2.1 with
+  | .ub => r
+  | res =>
+    if st'.ext.aborted then r else
+    let d1 : List Ev × R :=
+      if st'.hasOut && !st'.outForgot then runDropOn c dropOut .out st' else ([], .ret .unit)
+    let g := if st'.ext.guard.isSome then exec c dropGuard [] st' else ([], .ret .unit, st')
+    let res' :=
+      match d1.2, g.2.1 with
+      | .ub, _ => R.ub
+      | _, .ub => R.ub
+      | .panicked, _ => R.panicked
+      | _, .panicked => R.panicked
+      | _, _ => res
+    (r.1 ++ d1.1 ++ g.1, res', g.2.2)
 
 end GA.Body
